@@ -6,7 +6,9 @@ CONSTANTS N = 5
  Siblings = FALSE
  MinHidden = 1
  Focus = "rev"
- SliceK = 11
+ Shape = "any"
+ Flaws = {}
+ SliceK = 17
  SliceI = 1
 SPECIFICATION SpecQ
 INVARIANTS UpperBound UnlimitedExact NoHiddenExactWindow Monotone SomePathOK SomePathMultiOK EmitQ
